@@ -27,7 +27,7 @@ var FamilyNames = []string{
 	"ladder-pages", "ladder-names", "ladder-outline",
 	"chain-ref", "chain-first", "chain-next", "chain-kids", "chain-namekids",
 	"chain-prev", "chain-globals", "chain-length", "chain-objstm",
-	"self", "wide-kids", "wide-filters", "deep-array", "deep-dict", "deep-content", "q-flood",
+	"self", "wide-kids", "wide-filters", "deep-array", "deep-dict", "deep-content", "q-flood", "inline-dct",
 	"acroform-loop", "xobject-loop", "type3-loop", "action-chain", "pattern-loop",
 	"parent-loop", "contents-array", "colorspace-chain", "huge-offsets",
 	"nest-function", "nest-action", "nest-colorspace", "presteps-chain", "objstm-filter", "objstm-offsets", "xref-dct", "objstm-dct", "xref-index-sum", "cmap-wide", "catalog-pages",
@@ -354,6 +354,24 @@ func (fam *Family) build() ([]byte, error) {
 	case "deep-content":
 		content = strings.Repeat("[", n) + "1" + strings.Repeat("]", n) + " TJ " + strings.Repeat("q ", n) + strings.Repeat("BT ", 5) +
 			strings.Repeat("<< /K ", n) + "1" + strings.Repeat(" >>", n) + " /P BDC " + strings.Repeat("/T BMC ", n)
+	case "inline-dct":
+		// inline images whose filter chain starts with DCTDecode (a decoder
+		// with a goroutine of its own) and cannot be completed, is abandoned
+		// by the size limit, or fails late
+		jp := string(testJPEG(16+8*(n%3), 16, n%2 == 0))
+		switch n % 4 {
+		case 0:
+			content = "BI /W 16 /H 16 /BPC 8 /CS /G /F [/DCT /NoSuchFilter] /L " + fmt.Sprint(len(jp)) + " ID " + jp + " EI Q"
+		case 1:
+			content = "BI /W 16 /H 16 /BPC 8 /CS /G /F [/DCT /Fl] /L " + fmt.Sprint(len(jp)) + " ID " + jp + " EI Q"
+		case 2:
+			content = "BI /W 1 /H 1 /BPC 8 /CS /G /F /DCT /L " + fmt.Sprint(len(jp)) + " ID " + jp + " EI Q"
+		default:
+			content = "BI /W 16 /H 16 /BPC 8 /CS /G /F [/DCT /LZW] /DP [null << /EarlyChange 7 >>] /L " + fmt.Sprint(len(jp)) + " ID " + jp + " EI Q"
+		}
+		if fam.Cyc {
+			content = strings.Repeat(content+" ", 3)
+		}
 	case "q-flood":
 		// nothing but q operators, deflated (thousands of them per byte of the
 		// file): every saved graphics state is a copy of its own
